@@ -388,7 +388,15 @@ class StridedInterval:
                 straddling = True
 
         if straddling:
-            a_upper_bound = north_pole_left - ((north_pole_left - self.lower_bound) % self.stride)
+            first = self.lower_bound
+            if first > north_pole_left:
+                # the interval starts in the right hemisphere and wraps around the south pole before it reaches
+                # the north pole: the left hemisphere is entered at the first member after the wrap
+                first = self._ssplit()[1].lower_bound
+                if first > north_pole_left:
+                    # the stride steps over the whole left hemisphere
+                    return [self.copy()]
+            a_upper_bound = north_pole_left - ((north_pole_left - first) % self.stride)
             a = StridedInterval(
                 bits=self.bits,
                 stride=self.stride,
@@ -429,36 +437,13 @@ class StridedInterval:
         """
         Get lower bound and upper bound for `self` in signed arithmetic.
 
-        :return: a list of (lower_bound, upper_bound) tuples
+        :return: a list of (lower_bound, upper_bound) tuples, one for each part of `self` that crosses neither pole
         """
 
-        nsplit = self._nsplit()
-        if len(nsplit) == 1:
-            lb = nsplit[0].lower_bound
-            ub = nsplit[0].upper_bound
-
-            lb = self._unsigned_to_signed(lb, self.bits)
-            ub = self._unsigned_to_signed(ub, self.bits)
-
-            return [(lb, ub)]
-
-        if len(nsplit) == 2:
-            # nsplit[0] is on the left hemisphere, and nsplit[1] is on the right hemisphere
-
-            # The left one
-            lb_1 = nsplit[0].lower_bound
-            ub_1 = nsplit[0].upper_bound
-
-            # The right one
-            lb_2 = nsplit[1].lower_bound
-            ub_2 = nsplit[1].upper_bound
-            # Then convert them to negative numbers
-            lb_2 = self._unsigned_to_signed(lb_2, self.bits)
-            ub_2 = self._unsigned_to_signed(ub_2, self.bits)
-
-            return [(lb_1, ub_1), (lb_2, ub_2)]
-
-        raise ClaripyVSAError("WTF")
+        return [
+            (self._unsigned_to_signed(si.lower_bound, self.bits), self._unsigned_to_signed(si.upper_bound, self.bits))
+            for si in self._psplit()
+        ]
 
     def _unsigned_bounds(self) -> list[tuple[int, int]]:
         """
@@ -2339,9 +2324,19 @@ class StridedInterval:
         :param new_length: New length after zero-extension
         :return: A new StridedInterval
         """
-        si = self.copy()
-        si._bits = new_length
+        if self.is_empty or self.lower_bound <= self.upper_bound:
+            si = self.copy()
+            si._bits = new_length
+            return si
 
+        # the interval wraps around the south pole: in the wider space its two halves are no longer adjacent (and
+        # the stride lattice does not continue from one to the other), so extend them separately and join them
+        pieces = [
+            StridedInterval(bits=new_length, stride=p.stride, lower_bound=p.lower_bound, upper_bound=p.upper_bound)
+            for p in self._ssplit()
+        ]
+        si = StridedInterval.least_upper_bound(*pieces).normalize()
+        si.uninitialized = self.uninitialized
         return si
 
     @reversed_processor
@@ -2357,7 +2352,7 @@ class StridedInterval:
         if msb == [0]:
             # All positive numbers
             return self.zero_extend(new_length)
-        if msb == [1]:
+        if msb == [1] and self.lower_bound <= self.upper_bound:
             # All negative numbers
             si = self.copy()
             si._bits = new_length
@@ -2366,8 +2361,9 @@ class StridedInterval:
             si._upper_bound |= mask
 
         else:
-            # Both positive numbers and negative numbers
-            nums = self._nsplit()
+            # Both positive numbers and negative numbers (or an interval that wraps around the south pole, whose
+            # stride lattice does not survive the extension: split there too)
+            nums = self._psplit()
             # Since there are both positive and negative numbers, there must be two bounds after nsplit
             # assert len(numbers) == 2
 
